@@ -27,6 +27,7 @@
 // - 将来の拡張: Phase 3以降で完全な実装に置き換え予定
 //
 #include "expression_parser.h"
+#include "../../../common/stack_guard.h"
 #include "../recursive_parser.h"
 #include "primary_expression_parser.h"
 #include "src/common/debug.h"
@@ -96,6 +97,7 @@ ASTNode *ExpressionParser::parseExpression() {
         parser_->error("Expression is nested too deeply");
     }
     NestingGuard guard(nesting_depth_);
+    StackGuard::check();
     return parseAssignment();
 }
 
@@ -639,6 +641,7 @@ ASTNode *ExpressionParser::parseUnary() {
         parser_->error("Expression is nested too deeply");
     }
     NestingGuard guard(nesting_depth_);
+    StackGuard::check();
     // v0.12.0: await式のパース
     if (parser_->check(TokenType::TOK_AWAIT)) {
         parser_->advance(); // consume 'await'
